@@ -26,18 +26,18 @@ type Net struct {
 
 // End is one side of the network: a net.Conn plus the script that drives it.
 type End struct {
-	n       *Net
-	Name    string
-	inbox   []byte // bytes the endpoint will read
-	outbox  []byte // bytes the endpoint wrote, not yet routed
-	eof     bool   // no more data will arrive
-	closed  bool   // the endpoint closed its side
-	Done    bool
-	Panic   interface{}
-	Stack   string
-	Err     error       // result of the script
-	Result  interface{} // free for scripts
-	blocked bool
+	n               *Net
+	Name            string
+	inbox           []byte // bytes the endpoint will read
+	outbox          []byte // bytes the endpoint wrote, not yet routed
+	eof             bool   // no more data will arrive
+	closed          bool   // the endpoint closed its side
+	Done            bool
+	Panic           interface{}
+	Stack           string
+	Err             error       // result of the script
+	Result          interface{} // free for scripts
+	blocked         bool
 	WroteAfterClose bool
 }
 
